@@ -12,4 +12,6 @@ uint64_t eng_run_seed(uint64_t seed, const char *engine, uint64_t idx);
 const char *eng_first_line_matching(const char *path, const char *needle, char *buf, size_t bufsz);
 double eng_now(void); /* wall clock for budgets and rates only; never enters a log or a decision inside a run */
 extern uint64_t eng_forks;
+extern char eng_top_lib_frame[128];
+void eng_find_lib_frame(const char *errpath);
 #endif
